@@ -52,6 +52,11 @@ def build(s, runtime, only=None, exclude=()):
     elif runtime == "stdin":
         lines.append("rt := input()")
         S = "rt"
+    elif runtime == "stdinprompt":
+        # the prompt form of the builtin is a second emitted line form (round 15: C08-H, `IFS=` lost only when there is a prompt - leading and
+        # trailing blanks of the line were stripped)
+        lines.append('rt := input("value> ")')
+        S = "rt"
     elif runtime == "command":
         lines.append('rt, rterr, rtcode := @cat("in.txt")')
         S = "rt"
@@ -104,7 +109,7 @@ def run(res, b, tier, seed):
         strings.append(("random", "".join(rng.choice(gen_strings.ALPHABET) for _ in range(n))))
     cases = []
     for label, s in strings:
-        for origin in ("literal", "rawliteral", "file", "stdin", "command"):
+        for origin in ("literal", "rawliteral", "file", "stdin", "stdinprompt", "command"):
             if origin == "rawliteral" and ("`" in s or "\r" in s):
                 continue            # a raw literal cannot contain a back quote (and the lexer folds CR LF in the source text)
             if origin not in ("literal", "rawliteral") and ("\n" in s or s == ""):
@@ -194,7 +199,7 @@ def run(res, b, tier, seed):
         distinct_nontrivial=len({(c.meta["s"], c.meta["origin"]) for c in cases}),
         rule="every character of the 97-character alphabet (printable ASCII, line feed, tab) in only/first/middle/last position (quick: only + one rotating "
              "position), %d shell-significant special strings, random strings; x 13 data paths (print, assign, concat, compare, call/return, slice literal, "
-             "slice store, slice range, subscript, len, string range, write/read, multi-print) x 5 origins (interpreted literal, raw literal, file, standard input, command output); "
+             "slice store, slice range, subscript, len, string range, write/read, multi-print) x 6 origins (interpreted literal, raw literal, file, standard input without and with a prompt, command output); "
              "oracle: stdout byte for byte, empty stderr, exit 0, no canary file; distinct = distinct (string, origin)" % len(gen_strings.SPECIALS),
         samples=[dict(string=cases[5].meta["s"], origin=cases[5].meta["origin"], program=cases[5].meta["src"][:400])],
         correspondence=dict(stage="AST + bash script (whole model pipeline)", compared=len(cases), disagreements=len(dis)),
